@@ -110,6 +110,12 @@ CHECKS = {
         note="Reference renderer in harness/ref/docref.py (uses the C04 transform algebra, the C11 viewport algorithm, the C06 decompositions and the C01 path interpreter of the harness). Disputed or library-default sub-domains are not generated (listed in the evidence assumptions); inch-family translations are the known finding KF-TRANSFORM-MIXED-UNITS (two witness documents).",
         ref="5/C03",
     ),
+    "C14": dict(
+        technique="property-based testing: generated documents with per-element, per-property source subsets (attribute, *, type, .class, type.class, #id, inline) against an independent cascade evaluator and the effective-stroke-width law",
+        text="Documents over the shape vocabulary with nesting and use; for every element and each of fill, stroke, stroke-width, fill-opacity, stroke-opacity (and display by rule) a generated subset of the seven sources sets a value; rules are emitted in generated order with selector lists, comments and optional semicolons; translucent paints, currentColor against the root/caller colour, transforms of either determinant sign, vector-effect, both reify settings. Each rendered shape's fill and stroke (RGBA or none) must be the cascade's (specificity, source order, inheritance through g/svg/use, defaults, opacity folded multiplicatively) and its effective stroke width base x sqrt|det(accumulated transform)| (viewport transform alone for non-scaling strokes). Exploration.",
+        note="Cascade evaluator in harness/ref/docref.py. Not generated: !important, percentage widths, multi-class elements, color away from the root, rules selecting the outermost svg (the streaming parser reads <style> after it), vector-effect with disputed viewport transforms.",
+        ref="5/C14",
+    ),
 }
 
 REASON_PENDING = "no check registered yet in this build; the design (DESIGN.md section 5) covers it with property-based testing"
